@@ -19,6 +19,8 @@ def pdf_jobs(rng, quick):
         jobs.append(gen.enc("pdf", c if isinstance(c, (bytes, list)) else list(c.encode("latin-1")), (rng.randrange(9) if level is None else level,)))
     add("", 0)
     add("", 8)
+    for c in gen.magic_contents(rng):
+        add(c)
     for b in range(0, 256, 4 if quick else 1):
         add(bytes([b]), rng.randrange(4))
         add(b"Hello " + bytes([b]) + b" world", rng.randrange(4))
